@@ -262,34 +262,33 @@ func (f *FieldCopyToGenerator) genPrimitive() *j.Statement {
 	})
 }
 
-// genOptionalEmbedStub shadows obj with a copy that holds an empty embedded message when the embedded
-// pointer is nil, so that the fields of a nullable embedded message read as zero values instead of
-// dereferencing nil
-func (f *FieldCopyToGenerator) genOptionalEmbedStub(g *j.Group) {
+// genOptionalEmbedStub declares emb: the nullable embedded message the field belongs to, or an empty
+// one when the embedded pointer is nil, so that the field reads as its zero value instead of
+// dereferencing nil. It returns the expression the field has to be read from.
+func (f *FieldCopyToGenerator) genOptionalEmbedStub(g *j.Group) string {
 	if !f.ParentIsOptionalEmbed {
-		return
+		return "obj." + f.Name
 	}
 
-	// obj := obj
-	// if obj.Embedded == nil { c := *obj; c.Embedded = &Embedded{}; obj = &c }
-	g.Id("obj").Op(":=").Id("obj")
-	g.If(j.Id("obj." + f.ParentIsOptionalEmbedFieldName).Op("==").Nil()).Block(
-		j.Id("c").Op(":=").Op("*").Id("obj"),
-		j.Id("c."+f.ParentIsOptionalEmbedFieldName).Op("=").Id("&"+f.i.WithType(f.ParentIsOptionalEmbedFullType)).Values(),
-		j.Id("obj").Op("=").Id("&c"),
+	// emb := obj.Embedded
+	// if emb == nil { emb = &Embedded{} }
+	g.Id("emb").Op(":=").Id("obj." + f.ParentIsOptionalEmbedFieldName)
+	g.If(j.Id("emb").Op("==").Nil()).Block(
+		j.Id("emb").Op("=").Id("&" + f.i.WithType(f.ParentIsOptionalEmbedFullType)).Values(),
 	)
+
+	return "emb." + f.Name
 }
 
 // genObject generates CopyTo statement for a nested message
 func (f *FieldCopyToGenerator) genObject() *j.Statement {
 	m := NewMessageCopyToGenerator(f.Message, f.i)
-	fieldName := "obj." + f.Name
 
 	return f.nextField("a", func(g *j.Group) {
 		if f.OneOfName != "" {
 			f.genOneOfStub(g)
 		}
-		f.genOptionalEmbedStub(g)
+		fieldName := f.genOptionalEmbedStub(g)
 
 		f.assertTo(f.Field.ElemType, g, func(g *j.Group) {
 			f.genObjectBody(m, fieldName, f.Field.ValueType, g)
@@ -311,6 +310,10 @@ func (f *FieldCopyToGenerator) genOneOfStub(g *j.Group) {
 
 func (f *FieldCopyToGenerator) genListOrMap() *j.Statement {
 	fieldName := "obj." + f.Name
+	if f.ParentIsOptionalEmbed {
+		// see genOptionalEmbedStub
+		fieldName = "emb." + f.Name
+	}
 
 	var mk j.Code
 
